@@ -18,7 +18,7 @@ import (
 
 func refPlan(p *Plan) *Plan {
 	q := *p
-	q.Codec, q.Header, q.ByName, q.Plain = "json", "", false, false
+	q.Codec, q.Header, q.ByName, q.Plain, q.Mixed = "json", "", false, false, false
 	q.Net = NetConfig{}
 	q.Servers = make([]ServerCfg, len(p.Servers))
 	q.Conns = make([]ConnCfg, len(p.Conns))
@@ -121,7 +121,7 @@ func execIDs(w *World) []uint64 {
 }
 
 func cfgDesc(p *Plan) string {
-	return fmt.Sprintf("codec=%s header=%q byname=%v plain=%v servers=%+v conns=%+v net={frag:%d onechunk:%v lat:%v poll:%d/%d}", p.Codec, p.Header, p.ByName, p.Plain, p.Servers, p.Conns, p.Net.FragPermille, p.Net.OneChunkReads, p.Net.MaxLatency, p.Net.PollMode, p.Net.PollWorkers)
+	return fmt.Sprintf("codec=%s header=%q byname=%v mixed=%v plain=%v servers=%+v conns=%+v net={frag:%d onechunk:%v lat:%v poll:%d/%d}", p.Codec, p.Header, p.ByName, p.Mixed, p.Plain, p.Servers, p.Conns, p.Net.FragPermille, p.Net.OneChunkReads, p.Net.MaxLatency, p.Net.PollMode, p.Net.PollWorkers)
 }
 
 func checkC12(w *World, run *simrt.Run) {
